@@ -649,10 +649,89 @@ func c06ShowFrom(c *Ctx, cs c06Case) {
 		}
 		c.Violation(sig, fmt.Sprintf("ShowFrom(%q) differs from the frame-level rule (%s): real %q, rule %q", cs.Opts["show_from"], kind, c06trunc(rv), c06trunc(sv)), cs)
 	}
+	// theorem showFrom_removes_only_root_side on the real code (unconditional: also inside the
+	// known finding): samples, location lists and line lists only lose root-side elements
+	if re != nil { // also when the frame rule failed: inside the known finding this still has to hold
+		if in, e := ParseCanon(cs.Profile); e == nil {
+			if msg := c06ShowFromRemovesOnly(in, p); msg != "" {
+				oracleFailed = true
+				c.Violation("C06/show_from/not-a-leaf-side-prefix", fmt.Sprintf("ShowFrom(%q) did more than remove root-side frames or whole samples: %s", cs.Opts["show_from"], msg), cs)
+			}
+		}
+	}
 	c.Res.ModelCompared++
 	if got := Canon(p) + " " + b01(m); got != model && (!oracleFailed || known) {
 		c.Disagree("C06/show_from-model", "ShowFrom and the Lean model differ", "correspondence Filter.showFrom ~ (*Profile).ShowFrom (theorem showFrom_spec_partial)", cs)
 	}
+}
+
+func c06IsPrefix(a, b []string) bool {
+	if len(a) > len(b) {
+		return false
+	}
+	for i := range a {
+		if a[i] != b[i] {
+			return false
+		}
+	}
+	return true
+}
+
+// c06ShowFromRemovesOnly: the samples of `after` embed in order into those of `before` with equal
+// values/labels and a non-empty leaf-side prefix of the location ids; every location's lines are a
+// leaf-side prefix of its lines before. "" when so.
+func c06ShowFromRemovesOnly(before, after *profile.Profile) string {
+	ids := func(s *profile.Sample) []string {
+		var out []string
+		for _, l := range s.Location {
+			out = append(out, fmt.Sprint(l.ID))
+		}
+		return out
+	}
+	data := func(s *profile.Sample) string { return fmt.Sprint(s.Value, s.Label, s.NumLabel, s.NumUnit) }
+	j := 0
+	for i, s := range after.Sample {
+		a := ids(s)
+		if len(a) == 0 {
+			return fmt.Sprintf("kept sample %d has no location", i)
+		}
+		found := false
+		for ; j < len(before.Sample) && !found; j++ {
+			b := before.Sample[j]
+			found = data(b) == data(s) && c06IsPrefix(a, ids(b))
+		}
+		if !found {
+			return fmt.Sprintf("kept sample %d (%s, locations %v) is not an original sample cut on the root side, in order", i, data(s), a)
+		}
+	}
+	lines := func(l *profile.Location) []string {
+		var out []string
+		for _, ln := range l.Line {
+			var fid uint64
+			if ln.Function != nil {
+				fid = ln.Function.ID
+			}
+			out = append(out, fmt.Sprintf("%d:%d:%d", fid, ln.Line, ln.Column))
+		}
+		return out
+	}
+	bl := map[uint64][]string{}
+	for _, l := range before.Location {
+		bl[l.ID] = lines(l)
+	}
+	if len(before.Location) != len(after.Location) {
+		return "location table size"
+	}
+	for _, l := range after.Location {
+		b, ok := bl[l.ID]
+		if !ok {
+			return fmt.Sprintf("new location id %d", l.ID)
+		}
+		if a := lines(l); !c06IsPrefix(a, b) {
+			return fmt.Sprintf("location %d lines %v -> %v", l.ID, b, a)
+		}
+	}
+	return ""
 }
 
 // ---------- FilterTagsByName ----------
